@@ -8,19 +8,29 @@ REGISTRATION = {
                  "differential correspondence (in-memory registry, scripted chunk completion order)",
     "category": "proof",
     "text": "Kernel-checked theorems over a Lean model of Registry.Pull (size shortcut, chunk plans as served, "
-            "per-chunk digest check of Chunker.Put, marker blobs, errgroup slots, byte counters, Link last), of the "
-            "handlePull retry loop and of both push implementations, for every manifest, chunk plan, fault script, "
-            "completion order and retry history. The model is tied to the code on every run: the real client is "
-            "driven against an in-memory registry whose chunk answers are released in a scripted order under "
-            "testing/synctest, and per-attempt results, links and layer file bytes are compared exactly with the "
-            "model; the property itself (re-hash of every layer of every linked name; manifest PUT last) is "
-            "evaluated on the real cache and the real request log.",
+            "per-chunk digest check of Chunker.Put, marker blobs, errgroup slots, byte counters, whole-layer "
+            "verification before Link, Link last), of the handlePull retry loop and of both push implementations, for "
+            "every manifest, chunk plan, fault script (status, short/corrupt/reset body, broken list, cancellation, "
+            "read timeout), completion order, MaxStreams and history. Full strength for the tree: Pull = ok implies "
+            "every layer file has exactly the manifest's size and whole-file digest (pull_success_verified), a failed "
+            "pull never changes a link, manifest PUT last on both push paths. For the proposed staged-chunk variant "
+            "also: no pull damages a verified blob, and 'every linked name is verified' is an invariant of every "
+            "history. The model is tied to the code on every run: the real client is driven against an in-memory "
+            "registry whose chunk answers are released in a scripted order under testing/synctest; per-attempt "
+            "result, waiting-request counts, link, blob bytes and staging-file bytes are compared exactly with the "
+            "model (tree variant selected by probes of the real code); canRetry is tied by a table regenerated from "
+            "the real handlePull; the property itself (exact size + SHA-256 of every layer of every linked name "
+            "after every attempt; manifest PUT last) is evaluated on the real cache and the real request log.",
     "design_ref": "DESIGN.md §5 C09, §6 F10",
     "note": COMMON_NOTE + "Modelled, not verified: SHA-256 as an uninterpreted function (the oracle represents a "
-            "digest by its pre-image: exact unless SHA-256 collides on a run's byte strings); the file system is "
-            "faithful; one chunk answer is consumed at a time (true write-write races between overlapping chunks "
-            "are not explored); the read timeout is represented by a body read error; trace callbacks ignored; "
-            "legacy push: single-part uploads only (files < 100 MB), no 401/token and no 307 redirect path.",
+            "digest by its pre-image: exact unless SHA-256 collides on a run's byte strings; the staged-variant "
+            "theorems assume no collision between strings of different length); the file system is faithful; one "
+            "chunk answer is consumed at a time (true write-write races between overlapping chunks and two "
+            "concurrent Pull calls on one blob are not explored); a read timeout hits requests waiting for "
+            "headers (a body stalling mid-way is represented by a read error); trace callbacks ignored; legacy "
+            "push: single-part uploads only (files < 100 MB), no 401/token and no 307 redirect path. Known "
+            "finding F10d (Chunked writes into the final blob file) is open on /repo; "
+            "proposed_fixes/C09-F10d-stage-chunked-blob.patch repairs it and the check passes on both trees.",
 }
 
 MODULES = ["OllamaVerif.Properties.C09", "OllamaVerif.Tie.C09"]
@@ -80,6 +90,25 @@ def regenerate(ctx):
     ctx.coverage["retry_table"] = ", ".join(rows)
 
 
+def l1_inputs(ctx, outdir):
+    """Turn L1 disagreements into concrete, replayable inputs: the driver writes the replay header of every
+    case to tags.txt (line-aligned with ops.txt); a case on which model and code differ becomes a violation
+    whose `case` is `<header> :: <op line>` (honoured by --replay)."""
+    import os
+    paths = [os.path.join(outdir, n) for n in ("ops.txt", "impl.txt", "model.txt", "tags.txt")]
+    if not all(os.path.exists(p) for p in paths):
+        return
+    n = 0
+    with open(paths[0], errors="replace") as fo, open(paths[1], errors="replace") as fi, \
+            open(paths[2], errors="replace") as fm, open(paths[3], errors="replace") as ft:
+        for op, a, b, tag in zip(fo, fi, fm, ft):
+            if a.rstrip("\n") != b.rstrip("\n"):
+                n += 1
+                if n <= 5:
+                    ctx.violation("model-code-disagreement", tag.strip() + " :: " + op.strip(),
+                                  "impl=" + core.clip(a.strip(), 700) + " model=" + core.clip(b.strip(), 700))
+
+
 def run(ctx):
     if not ctx.replay:
         regenerate(ctx)
@@ -97,6 +126,7 @@ def run(ctx):
             ctx.violation("driver-failed", "", out[-1500:], no_input=True)
         ctx.read_stats(outdir)
         ctx.l1(outdir, label="client")
+        l1_inputs(ctx, outdir)
         ctx.classify(ctx.l2(outdir))
     if replay_kind in (None, "legacy"):
         env2 = dict(env)
@@ -106,6 +136,7 @@ def run(ctx):
             ctx.violation("driver-failed", "", out[-1500:], no_input=True)
         ctx.read_stats(outdir)
         ctx.l1(outdir, label="legacy")
+        l1_inputs(ctx, outdir)
         ctx.classify(ctx.l2(outdir))
     if ctx.thorough:
         ctx.leanchecker(MODULES)
@@ -113,14 +144,16 @@ def run(ctx):
         "SHA-256 is collision-free on the byte strings of a run (digests are represented by pre-images in the oracle)",
         "one chunk answer is consumed at a time: write-write races between concurrently answered overlapping chunks are not explored",
         "generator: two plan entries with the same range but different digests only with MaxStreams=1 (requests are indistinguishable otherwise)",
-        "read timeout is represented by a body read error (same client-side effect: the chunk goroutine returns an error)",
+        "read timeout: modelled for requests waiting for response headers (step `timeout`); a body that stalls mid-way is represented by a read error",
+        "staged-variant theorems: H has no collision between byte strings of different lengths",
+        "the fake transport returns context.Cause(ctx) for a cancelled request, like net/http's transport",
     ]
     return ctx.finish(
         level="proof",
-        rule="seeded pull histories (1-4 attempts, 1-2 names, manifests over a pool of 2-4 contents with sizes on both "
-             "sides of ChunkingThreshold in {2,3,4,6}, MaxStreams in {1,2,3,-1}; served chunk plans: exact partition / "
+        rule="seeded pull histories (1-4 attempts, 1-2 names, manifests over a pool of 2-4 contents of 0-24 bytes, sizes on both "
+             "sides of ChunkingThreshold in {2,3,4,6,9}, MaxStreams in {1,2,3,-1}; served chunk plans: exact partition / "
              "repeated / moved / dropped / lying digest / permuted / broken tail / failing; per-request faults: 5xx, 4xx, "
-             "transport, short, reset, corrupt byte, extra bytes; cancellation; scripted completion order) + push cases "
+             "transport, short, reset, corrupt byte, extra bytes; cancellation; read timeout (fake time); scripted completion order; history modes: range past the layer end then honest retries (1/6), size lie after a linked honest pull (1/8)) + push cases "
              "for both push implementations with per-request faults; distinct = distinct oracle command lines",
         explanation="Lean theorems about the model of Pull/Push; the model is tied to the real client by exact comparison of "
                     "per-attempt result class, waiting-request counts, link target and layer file bytes (L1), and the "
